@@ -44,6 +44,8 @@ def expand(word):
         elif sym == "LISTDUP":
             for j, tkn in enumerate(("[", '"dup"', ",", '"x%d"' % k, ",", '"dup"', "]")):
                 out.append(("str" if tkn.startswith('"') else tkn, tkn))
+        elif sym.startswith("GLUE:"):
+            out.append(("glue", sym[5:]))  # raw text written directly after the previous token, without any separator
         elif sym.startswith("RAW:"):
             out.append(("raw", sym[4:]))
         elif sym.startswith('"'):
@@ -79,12 +81,16 @@ def render(word, layout="space", raw=None):
     toks = raw if raw is not None else expand(word)
     parts = []
     n = len(toks)
+    sep_pending = False
     for i, (kind, text) in enumerate(toks):
         if layout == "upper" and kind in ("id", "tag"):
             text = _flip(text)
         b = text.encode("utf-8")
         if kind == "ml" and layout == "crlf":
             b = b.replace(b"\n", b"\r\n")
+        if kind == "glue" and sep_pending:
+            parts.pop()  # (not after a multi-line literal, whose line end belongs to the literal)
+        sep_pending = False
         parts.append(b)
         last = i == n - 1
         # a multi-line literal ends with "." CRLF: the line end belongs to it
@@ -111,6 +117,7 @@ def render(word, layout="space", raw=None):
             parts.append(MIXED_SEPS[i % len(MIXED_SEPS)])
         else:
             raise ValueError(layout)
+        sep_pending = True
     body = b"".join(parts)
     if layout == "leadlf":
         body = b"\n" + body  # the script's very first octet is a line feed: line 1 is empty
